@@ -661,6 +661,66 @@ func normCond(cond ssa.Value) (a Atom, pos bool) {
 	}
 }
 
+// consumedOnlyBehind: every place where the pure value v takes effect - a return,
+// a branch, a call or store that uses it, or the edge over which a phi selects
+// it - lies behind one of the cut edges. Where v is computed does not matter (a
+// comparison may be evaluated early and used on one branch only). n is the
+// number of consumption points examined.
+func consumedOnlyBehind(fn *ssa.Function, v ssa.Value, cut []Edge) (ok bool, n int) {
+	ok = true
+	seen := map[ssa.Value]bool{}
+	inCut := func(from, to *ssa.BasicBlock) bool {
+		for _, e := range cut {
+			if e.From == from && e.To() == to && e.Via == nil {
+				return true
+			}
+		}
+		return false
+	}
+	var rec func(v ssa.Value)
+	rec = func(v ssa.Value) {
+		if seen[v] || v.Referrers() == nil {
+			return
+		}
+		seen[v] = true
+		for _, r := range *v.Referrers() {
+			switch x := r.(type) {
+			case *ssa.DebugRef:
+			case *ssa.Phi:
+				for i, e := range x.Edges {
+					if e != v {
+						continue
+					}
+					n++
+					pred := x.Block().Preds[i]
+					if inCut(pred, x.Block()) || len(pred.Instrs) == 0 {
+						continue
+					}
+					if reachableWithout(fn, pred.Instrs[len(pred.Instrs)-1], cut) != nil {
+						ok = false
+					}
+				}
+			case *ssa.UnOp:
+				if x.Op == token.NOT {
+					rec(x)
+					continue
+				}
+				n++
+				if reachableWithout(fn, x, cut) != nil {
+					ok = false
+				}
+			default:
+				n++
+				if reachableWithout(fn, r, cut) != nil {
+					ok = false
+				}
+			}
+		}
+	}
+	rec(v)
+	return ok, n
+}
+
 // boolIs: v is the boolean cond, either the value itself or a flag that receives
 // the constant true exactly over cond's true edge and false over its false edge
 // (if cond { v = true } else { v = false }).
@@ -830,6 +890,27 @@ func multiConds(fn *ssa.Function) map[ssa.Value]bool {
 	for k, n := range cnt {
 		if n >= 2 {
 			out[k] = true
+		}
+	}
+	// a condition that is also stored into a flag (it arrives at a boolean phi) is remembered too:
+	// the branch on the flag repeats the test
+	for _, b := range fn.Blocks {
+		for _, in := range b.Instrs {
+			ph, ok := in.(*ssa.Phi)
+			if !ok {
+				break
+			}
+			if bt, okb := ph.Type().Underlying().(*types.Basic); !okb || bt.Info()&types.IsBoolean == 0 {
+				continue
+			}
+			for _, e := range ph.Edges {
+				if _, isC := e.(*ssa.Const); isC {
+					continue
+				}
+				if k, _ := condKey(e); cnt[k] >= 1 {
+					out[k] = true
+				}
+			}
 		}
 	}
 	return out
